@@ -3,6 +3,7 @@
 EXTENDS PolicyPool, Json, IOUtils
 
 WhenP(s, e) == Pol(s, <<<<"when", e>>>>)
+XC(f, args) == <<"call", f, args>>
 \* strictly valid policies (checked against the real validator each run: an invalid one is a harness error)
 TP == <<
   WhenP(3, Conn(1, Guard(1), TT_, Use(1))), WhenP(3, Conn(1, Guard(2), TT_, Use(2))), WhenP(3, Conn(1, Guard(3), TT_, Use(3))),
@@ -27,6 +28,19 @@ TP == <<
   WhenP(3, Conn(1, Guard(11), TT_, Use(11))), WhenP(3, Conn(1, Guard(12), TT_, Use(12))),
   WhenP(2, <<"like", G_(G_(Rv, "owner"), "s"), <<107, Star>>>>), WhenP(2, B_("eq", G_(Pv, "s"), G_(G_(Rv, "owner"), "s"))),
   WhenP(2, And_(H_(Pv, "mgr"), B_("hasTag", Pv, G_(G_(Pv, "mgr"), "s")))),
+  \* whole records compared: every attribute of the record type matters, optional ones included
+  WhenP(2, B_("eq", G_(Pv, "rec"), G_(G_(Rv, "owner"), "rec"))),
+  WhenP(2, B_("contains", <<"set", <<G_(G_(Rv, "owner"), "rec"), <<"record", [inner |-> LitL(7)], <<"inner">>>>>>>>, G_(Pv, "rec"))),
+  \* extension values built from literals (no schema support needed): ranges with a CIDR receiver, decimals, datetimes
+  WhenP(2, XC("isInRange", <<XC("ip", <<LitS(<<49, 48, 46, 48, 46, 48, 46, 48, 47, 56>>)>>), XC("ip", <<LitS(<<49, 48, 46, 48, 46, 48, 46, 48, 47, 49, 54>>)>>)>>)),   \* 10.0.0.0/8 in 10.0.0.0/16
+  WhenP(2, XC("isInRange", <<XC("ip", <<LitS(<<49, 48, 46, 48, 46, 48, 46, 48, 47, 49, 54>>)>>), XC("ip", <<LitS(<<49, 48, 46, 48, 46, 48, 46, 48, 47, 56>>)>>)>>)),   \* 10.0.0.0/16 in 10.0.0.0/8
+  WhenP(2, XC("isInRange", <<XC("ip", <<LitS(<<49, 48, 46, 48, 46, 48, 46, 49>>)>>), XC("ip", <<LitS(<<49, 48, 46, 48, 46, 48, 46, 48, 47, 56>>)>>)>>)),   \* 10.0.0.1 in 10.0.0.0/8
+  WhenP(2, XC("isInRange", <<XC("ip", <<LitS(<<49, 57, 50, 46, 49, 54, 56, 46, 48, 46, 55, 55, 47, 49, 54>>)>>), XC("ip", <<LitS(<<49, 57, 50, 46, 49, 54, 56, 46, 48, 46, 48, 47, 50, 52>>)>>)>>)),   \* 192.168.0.77/16 in 192.168.0.0/24
+  WhenP(2, XC("isInRange", <<XC("ip", <<LitS(<<50, 48, 48, 49, 58, 100, 98, 56, 58, 58, 47, 51, 50>>)>>), XC("ip", <<LitS(<<50, 48, 48, 49, 58, 100, 98, 56, 58, 58, 47, 52, 56>>)>>)>>)),   \* 2001:db8::/32 in 2001:db8::/48
+  WhenP(2, XC("isInRange", <<XC("ip", <<LitS(<<58, 58, 49>>)>>), XC("ip", <<LitS(<<58, 58, 47, 48>>)>>)>>)),   \* ::1 in ::/0
+  WhenP(2, XC("lessThan", <<XC("decimal", <<LitS(<<49, 46, 53>>)>>), XC("decimal", <<LitS(<<50, 46, 48>>)>>)>>)),
+  WhenP(2, And_(XC("isLoopback", <<XC("ip", <<LitS(<<49, 50, 55, 46, 48, 46, 48, 46, 49, 47, 56>>)>>)>>), Not_(XC("isMulticast", <<XC("ip", <<LitS(<<49, 48, 46, 48, 46, 48, 46, 48, 47, 56>>)>>)>>)))),
+  WhenP(2, B_("less", XC("datetime", <<LitS(<<50, 48, 50, 52, 45, 48, 49, 45, 48, 49>>)>>), XC("offset", <<XC("datetime", <<LitS(<<50, 48, 50, 51, 45, 49, 50, 45, 51, 49>>)>>), XC("duration", <<LitS(<<50, 100>>)>>)>>))),
   WhenP(2, And_(Probes[16][1], Conn(1, Guard(2), TT_, Use(2)))), WhenP(2, Or_(B_("eq", G_(Rv, "owner"), Pv), Conn(1, Guard(4), TT_, Use(4))))
 >>
 NTP == Len(TP)
